@@ -8,6 +8,7 @@
 #include <tbox/main/main.h>
 #include <tbox/event/loop.h>
 #include <poll.h>
+#include <dirent.h>
 #include <sys/wait.h>
 #include <time.h>
 
@@ -59,6 +60,25 @@ std::string cfg_path(const TreeSpec &t, int i) {
   for (int x = i; x > 0; x = t.nodes[x].parent)
     if (t.nodes[x].namemode != 0) p = p.empty() ? node_name(x) : node_name(x) + "." + p;
   return p;
+}
+
+// true if every thread of the process is in state 'S' (interruptible sleep); desc lists "tid:state:wchan"
+bool all_threads_sleeping(pid_t pid, std::string &desc) {
+  std::string dir = "/proc/" + std::to_string((int)pid) + "/task";
+  DIR *d = opendir(dir.c_str());
+  if (!d) return false;
+  bool all = true; int n = 0;
+  while (struct dirent *e = readdir(d)) {
+    if (e->d_name[0] < '0' || e->d_name[0] > '9') continue;
+    std::ifstream f(dir + "/" + e->d_name + "/stat"); std::string line; if (!std::getline(f, line)) continue;
+    size_t rp = line.rfind(')'); if (rp == std::string::npos || rp + 2 >= line.size()) continue;
+    char st = line[rp + 2]; ++n;
+    std::ifstream w(dir + "/" + e->d_name + "/wchan"); std::string wc; std::getline(w, wc);
+    desc += (desc.empty() ? "" : " ") + std::string(e->d_name) + ":" + st + ":" + wc;
+    if (st != 'S') all = false;
+  }
+  closedir(d);
+  return n > 0 && all;
 }
 
 // utime+stime of a process in clock ticks (-1 if unreadable)
@@ -118,14 +138,23 @@ std::string run_main(const Scenario &s, CaseInfo &info) {
   std::vector<unsigned char> bytes;
   struct timespec t0; clock_gettime(CLOCK_MONOTONIC, &t0);
   bool timed_out = false;
-  int extensions = 0; long last_ticks = -1;
+  int extensions = 0; bool gave_up = false; std::string stuck_threads;
   for (;;) {
     struct timespec now; clock_gettime(CLOCK_MONOTONIC, &now);
     long left = kBudgetMs - ((now.tv_sec - t0.tv_sec) * 1000 + (now.tv_nsec - t0.tv_nsec) / 1000000);
     if (left <= 0) {
-      // a child that still burns CPU is slow (loaded machine), not stuck: give it up to 4x the budget
-      if (extensions < 3 && cpu_ticks(pid) != last_ticks) { last_ticks = cpu_ticks(pid); ++extensions; clock_gettime(CLOCK_MONOTONIC, &t0); continue; }
-      timed_out = true; break;
+      // Stuck or only slow (loaded machine, memory pressure)?  Stuck = over 2 s no CPU time consumed and every thread
+      // sleeping interruptibly (a deadlocked process sits in futex waits); anything else gets more time.
+      long c1 = cpu_ticks(pid); std::string th1; bool s1 = all_threads_sleeping(pid, th1);
+      struct pollfd q = {pfd[0], POLLIN, 0};
+      if (poll(&q, 1, 2000) <= 0) {
+        long c2 = cpu_ticks(pid); std::string th2; bool s2 = all_threads_sleeping(pid, th2);
+        if (s1 && s2 && c1 == c2 && c1 >= 0) { timed_out = true; stuck_threads = th2; break; }
+        if (++extensions > 8) { gave_up = true; break; }
+        clock_gettime(CLOCK_MONOTONIC, &t0);
+        continue;
+      }
+      left = 1000;   // data or EOF arrived in the meantime: read it
     }
     struct pollfd p = {pfd[0], POLLIN, 0};
     int pr = poll(&p, 1, (int)left);
@@ -138,6 +167,12 @@ std::string run_main(const Scenario &s, CaseInfo &info) {
     bytes.insert(bytes.end(), buf, buf + n);
   }
   close(pfd[0]);
+  if (gave_up) {   // still making progress after 5 minutes: neither pass nor violation
+    kill(pid, SIGKILL);
+    while (waitpid(pid, nullptr, 0) < 0 && errno == EINTR) {}
+    stats().counters["inconclusive_child_too_slow"]++;
+    return "";
+  }
   if (timed_out) {
     if (getenv("C11_MAIN_DEBUG_HANG")) {   // debugging aid: show where the child is stuck
       std::string cmd = "gdb -p " + std::to_string((int)pid) + " -batch -ex 'thread apply all bt' 2>&1 | tail -150 1>&2";
@@ -180,7 +215,7 @@ std::string run_main(const Scenario &s, CaseInfo &info) {
   if (init_failed || start_failed) info.nontrivial = true;
   (void)any_start;
 
-  if (timed_out) return std::string(backend ? "Start()/Stop()" : "Main()") + " did not return within 30 s" + (err.empty() ? std::string() : " (" + err + ")");
+  if (timed_out) return std::string(backend ? "Start()/Stop()" : "Main()") + " did not return within 30 s and is blocked (threads tid:state:wchan = " + stuck_threads + ")" + (err.empty() ? std::string() : " (" + err + ")");
   if (WIFSIGNALED(status)) return "the process running Main() was killed by signal " + std::to_string(WTERMSIG(status)) + (err.empty() ? std::string() : " (" + err + ")");
   if (WIFEXITED(status) && WEXITSTATUS(status) == 9) return "HARNESS: RegisterApps could not build the tree";
   if (WIFEXITED(status) && WEXITSTATUS(status) != 0) return "the process running Main() exited with status " + std::to_string(WEXITSTATUS(status)) + (err.empty() ? std::string() : " (" + err + ")");
